@@ -218,7 +218,9 @@ func (sc *SubCache[EntityT, ExcerptT, CacheT]) Build() <-chan BuildEvent {
 			Event:    BuildEventStarted,
 		}
 
+		sc.mu.Lock()
 		sc.excerpts = make(map[entity.Id]ExcerptT)
+		sc.mu.Unlock()
 
 		allEntities := sc.actions.ReadAllWithResolver(sc.repo, sc.resolvers())
 
@@ -254,9 +256,13 @@ func (sc *SubCache[EntityT, ExcerptT, CacheT]) Build() <-chan BuildEvent {
 			}
 
 			cached := sc.makeCached(e.Entity, sc.entityUpdated)
+			// the sub-caches are built concurrently and resolve each other's entities
+			// (a bug resolves its authors), so the maps need to be protected here as well
+			sc.mu.Lock()
 			sc.excerpts[e.Entity.Id()] = sc.makeExcerpt(cached)
 			// might as well keep them in memory
 			sc.cached[e.Entity.Id()] = cached
+			sc.mu.Unlock()
 
 			indexData := sc.makeIndexData(cached)
 			if err := indexer(e.Entity.Id().String(), indexData); err != nil {
